@@ -39,6 +39,14 @@ def corpus(seed, n, circles):
         s = open(os.path.join(gen.REPO, 'crates/svgbob/test_data', name), encoding='utf-8').read()
         if len(s) < 12000:
             docs.append(s)
+    for k in range(6):
+        # many separate groups on one page (parallel or batched processing must not reorder anything)
+        toks = ['-->', 'ab', '+-+', '()', '*', 'o-', '/', 'x y'.split()[0], '.-.', 'k9']
+        rows = []
+        for y in range(rng.randint(12, 30)):
+            rows.append(''.join(rng.choice(toks).ljust(6) for _ in range(rng.randint(8, 16))).rstrip())
+            rows.append('')
+        docs.append(gen.text_of(rows))
     while len(docs) < n:
         q = rng.random()
         if q < 0.15:
